@@ -1,7 +1,7 @@
 (* C05 — the token tree obeys the documented grammar.  PARTIAL: attribute bounds that follow from the
    regenerated patterns.  The inductive proof over the parser model is not claimed (DESIGN.md). *)
 From Coq Require Import ZArith List Bool Lia.
-From Verif Require Import PyStr Rx RxSpec RxAnalysis UnicodeGen RxGen Inline Block BlockTyping BlockGen Entry.
+From Verif Require Import PyStr Rx RxSpec RxAnalysis RxGroups UnicodeGen RxGen Inline Block BlockProofs BlockTyping BlockLevels BlockGen Entry C01.
 Import ListNotations.
 Local Open Scope nat_scope.
 
@@ -41,6 +41,25 @@ Proof. reflexivity. Qed.
 Theorem C05_block_tree_is_well_typed : forall C s toks rf, block_parse C s = Ok (toks, rf) -> toks_ok toks = true.
 Proof. exact block_parse_typed. Qed.
 
+(* heading levels: for every text, every heading anywhere in the block tree has a level between 1 and 6 *)
+Lemma atx_groups_ok : forall C, block_cfg = Some C -> forall r, rule_of C RAtx r -> gb 1 1 6 r = true /\ mcap 1 r = true.
+Proof.
+  intros C H. unfold block_cfg in H.
+  match type of H with context [opt_all ?l] => let v := eval vm_compute in (opt_all l) in change (opt_all l) with v in H end.
+  inversion H; subst C; clear H. intros r [Hk|[->|(w & Hin)]]; [discriminate| |].
+  - cbn [b_spec block_spec]. split; vm_compute; reflexivity.
+  - cbn [b_lb_rules] in Hin. unfold lb_rules_of in Hin.
+    destruct w as [|[|[|w]]];
+      match type of Hin with In _ (lb_named ?l) => let v := eval vm_compute in (lb_named l) in change (lb_named l) with v in Hin end;
+      cbn [In] in Hin; repeat (destruct Hin as [Hin|Hin]; [inversion Hin; subst; first [split; vm_compute; reflexivity|discriminate]|]); contradiction.
+Qed.
+
+Theorem C05_heading_levels_are_1_to_6 : forall C s toks rf, block_cfg = Some C -> block_parse C s = Ok (toks, rf) -> lvls_ok toks = true.
+Proof. intros C s toks rf HC. exact (block_parse_levels C (block_cfg_ok C HC) (atx_groups_ok C HC) s toks rf). Qed.
+
+Example C05_levels_not_vacuous : lvl_ok (BQuote [BHeading [] 7 false]) = false /\ lvl_ok (BList [BListItem [BHeading [] 6 false]] true 45%Z 0 false None) = true.
+Proof. split; reflexivity. Qed.
+
 Example C05_typing_is_not_vacuous :
   tok_ok (BList [BListItem [BBlockText [97%Z]; BQuote [BParagraph [98%Z]]]] true 45%Z 0 false None) = true /\
   tok_ok (BQuote [BListItem []]) = false /\ tok_ok (BList [BParagraph []] true 45%Z 0 false None) = false.
@@ -49,3 +68,4 @@ Proof. repeat split. Qed.
 Print Assumptions C05_atx_level_in_1_6.
 Print Assumptions C05_list_marker_bounded.
 Print Assumptions C05_block_tree_is_well_typed.
+Print Assumptions C05_heading_levels_are_1_to_6.
